@@ -123,11 +123,19 @@ template <class Gr> static void dumpUndObs(std::ostream &o, const Gr &g) {
 
 
 // ---------------------------------------------------------------- file routines (writers)
+// arithmetic labels are written with the library's DEFAULT formatter argument (std::to_string), the others with the
+// harness codec
+template <class L, class Gr> static typename std::enable_if<std::is_arithmetic<L>::value>::type writeTextAs(const Gr &g, const std::string &path) {
+    io::writeTextEdgeList(g, path);
+}
+template <class L, class Gr> static typename std::enable_if<!std::is_arithmetic<L>::value>::type writeTextAs(const Gr &g, const std::string &path) {
+    io::writeTextEdgeList(g, path, std::function<std::string(const L &)>([](const L &l) { return TextCodec<L>::to(l); }));
+}
 template <class L, class Gr> static typename std::enable_if<TextCodec<L>::ok, bool>::type writeTextVerb(const Gr &g, std::string &out) {
     std::string path = scratchPath();
     spit(path, "stale bytes of an earlier, longer file\n0 1 2 3 4 5 6 7 8 9\n"); // writers must replace, not extend
     std::string r = guard([&] {
-        io::writeTextEdgeList(g, path, std::function<std::string(const L &)>([](const L &l) { return TextCodec<L>::to(l); }));
+        writeTextAs<L>(g, path);
         return std::string("ok");
     });
     out = "R " + r + "\n";
